@@ -79,9 +79,16 @@ def run(ctx):
     for gi in range(ngr):
         g = cfggen.family(gi) if gi < 6 else cfggen.gen_cfg(rng)
         body = g.text("x/PKG/h")
+        if rng.random() < 0.5:
+            # tokens that span line breaks (action expressions written over several lines): line ends inside a token are token text
+            body = body.replace("<< h.N(", "<< h.N(\n      ").replace(" >>", "\n   >>")
+        crlf = rng.random() < 0.4
         lines = body.split("\n")
         # split the grammar text into 1-3 blocks at line boundaries (bare fences on their own lines)
-        cuts = sorted(set(rng.randrange(1, len(lines)) for _ in range(rng.choice([0, 1, 2])))) if len(lines) > 2 else []
+        # cut only BETWEEN tokens: a fence boundary inside a token that spans lines (an action written over several lines) puts the
+        # blanked fence lines and prose into the token's text (known finding C19-fence-inside-token, exercised by a fixed witness below)
+        allowed = [k for k in range(1, len(lines)) if "\n".join(lines[:k]).count("<<") == "\n".join(lines[:k]).count(">>")]
+        cuts = sorted(set(rng.choice(allowed) for _ in range(rng.choice([0, 1, 2])))) if len(lines) > 2 and allowed else []
         parts = []
         prev = 0
         for c in cuts + [len(lines)]:
@@ -90,6 +97,10 @@ def run(ctx):
         md = rng.choice(PROSE) + "\n"
         for part in parts:
             md += "```\n" + part + "```\n" + rng.choice(PROSE) + "\n"
+        if crlf:
+            # the whole document with Windows line ends (prose, fence lines and code alike)
+            md = md.replace("\r\n", "\n").replace("\n", "\r\n")
+            parts = [p_.replace("\n", "\r\n") for p_ in parts]
         name_md, name_bnf = "m%d" % gi, "b%d" % gi
         # same output directory name is needed for identical import paths: generate both into sub-directory 'o' of separate parents
         for nm, fname, content in ((name_md, "g.md", md), (name_bnf, "g.bnf", "".join(parts))):
@@ -109,7 +120,7 @@ def run(ctx):
         if len(samples) < 2:
             samples.append({"markdown": md[:400]})
         # planted syntax error: replace one ';' by ';;' and compare reported position with the position in the markdown file
-        if ";" in md and rc1 == 0:
+        if ";" in md and rc1 == 0 and not crlf:
             idx = [m.start() for m in re.finditer(r";\n", md)]
             k = rng.choice(idx)
             bad_md = md[:k] + "; ;" + md[k + 1:]
@@ -128,6 +139,25 @@ def run(ctx):
                     ctx.violation({"kind": "property-oracle-on-implementation", "markdown": bad_md, "expected_line_col": [line, col],
                                    "gocc_exit": rc3, "gocc_output": out3[-400:]})
                     reported += 1
+    # ---- known finding: a fence boundary inside a multi-line token (fixed witness; any OTHER difference is still a violation)
+    kf = {f["id"]: f for f in ctx.known_findings()}
+    wit_blocks = ["S : a << []interface{}{\n", "  $0}, nil >> ;\n"]
+    wit_md = "# witness\n```\n" + wit_blocks[0] + "```\nprose between the two halves of one action\n```\n" + wit_blocks[1] + "```\n"
+    for nm in ("kfm/o", "kfb/o"):
+        os.makedirs(os.path.join(ws.dir, nm), exist_ok=True)
+    rcm, outm, dm = ws.gocc("kfm/o", wit_md, flags=["-a", "-p", "x/o"], fname="g.md")
+    rcb, outb, db = ws.gocc("kfb/o", "".join(wit_blocks), flags=["-a", "-p", "x/o"], fname="g.bnf")
+    fm, fb = dir_files(dm), dir_files(db)
+    if rcm != rcb or fm != fb:
+        diff = sorted(k for k in set(fm) | set(fb) if fm.get(k) != fb.get(k))
+        what = ("a ``` fence boundary inside a token that spans lines (the action of  S : a << ... >>  split over two fenced blocks): the blanked "
+                "fence lines and prose become part of the action text; x.md and the concatenated x.bnf differ in %s" % diff)
+        if "C19-fence-inside-token" in kf and rcm == rcb and diff == ["parser/productionstable.go"]:
+            ctx.report_known(kf["C19-fence-inside-token"], what)
+        elif reported < 3:
+            ctx.violation({"kind": "property-oracle-on-implementation", "markdown": wit_md, "concatenated_blocks": "".join(wit_blocks),
+                           "exit_md": rcm, "exit_bnf": rcb, "differing_files": diff})
+            reported += 1
     for o in ctx.failed_obligations():
         if reported < 6:
             ctx.violation({"kind": "proof-obligation-broken", "obligation": o}, found_input=False)
